@@ -29,7 +29,8 @@ def _index(m):
 def exact(shape, cards) -> bool:
     m = R.build(shape, cards)
     feats = _index(m)
-    res = FMCoreFeatures().execute(m).get_result()
+    from .common import result_twice
+    res = result_twice(FMCoreFeatures(), m)
     res2 = get_core_features(m)
     forced = R.ref_forced(shape, cards)
     ids = [id(f) for f in res]
